@@ -5,6 +5,7 @@ package main
 import (
 	"fmt"
 	"go/types"
+	"regexp"
 	"sort"
 	"strings"
 )
@@ -163,6 +164,7 @@ const preludeFixed = `(set-option :produce-models true)
 (declare-fun tag-kind (Int) Int)
 (define-fun any-wf ((x Any)) Bool (and (=> ((_ is any-str) x) (= (tag-kind (a-stag x)) 1)) (=> ((_ is any-int) x) (= (tag-kind (a-itag x)) 2)) (=> ((_ is any-bool) x) (= (tag-kind (a-btag x)) 3)) (=> ((_ is any-ref) x) (= (tag-kind (a-rtag x)) 4)) (=> ((_ is any-slice) x) (= (tag-kind (a-sltag x)) 5)) (=> ((_ is any-opq) x) (= (tag-kind (a-otag x)) 6))))
 (declare-fun str-itoa (Int) String)
+(declare-fun itoa-inv (String) Int)
 (declare-fun any-fmt (Any) String)
 (declare-fun err-msg (Any) String)
 `
@@ -191,7 +193,7 @@ func newUniverse() *Universe {
 }
 
 func (u *Universe) tag(t types.Type) int {
-	k := types.TypeString(t, nil)
+	k := typeKey(t)
 	if n, ok := u.tags[k]; ok {
 		return n
 	}
@@ -202,7 +204,16 @@ func (u *Universe) tag(t types.Type) int {
 	return n
 }
 
-func typeKey(t types.Type) string { return types.TypeString(t, nil) }
+var anyRe = regexp.MustCompile(`\bany\b`)
+
+// typeKey is the canonical name of a type (the alias `any` is spelled interface{}).
+func typeKey(t types.Type) string {
+	s := types.TypeString(t, nil)
+	if strings.Contains(s, "any") {
+		s = anyRe.ReplaceAllString(s, "interface{}")
+	}
+	return s
+}
 
 func shorten(s string) string {
 	var b strings.Builder
